@@ -15,12 +15,14 @@
 (*   [k |-> "root"|"empty"|"scope"|"first-child"|"last-child"|"only-child"|   *)
 (*          "first-of-type"|"last-of-type"|"only-of-type"|"none"]             *)
 (*   [k |-> "nth", a, b, last, oftype, of |-> Seq(Complex)]                   *)
+(*   [k |-> "lang", ranges |-> Seq(Str)]   [k |-> "contains", vals, own]      *)
+(*   [k |-> "in-range"|"out-of-range"] and the HTML state pseudo-classes      *)
 (* NsSpec = [t |-> "bare"] E | [t |-> "none"] |E | [t |-> "any"] *|E |        *)
 (*          [t |-> "pfx", p |-> Str] p|E                                      *)
 (* compound = Seq(simple); Complex = [cs |-> Seq(compound), cb |-> Seq(Comb)] *)
 (* with Len(cb) = Len(cs) - 1; Comb \in {" ", ">", "+", "~"}; list = Seq(Complex) *)
 (* env = [nsmap |-> Seq([p |-> Str, u |-> Str]), scope |-> node]              *)
-EXTENDS Integers, Sequences, FiniteSets, Str, Dom
+EXTENDS Integers, Sequences, FiniteSets, Str, Dom, Lang, TextSem, HtmlState, Calendar
 
 Bare == [t |-> "bare"]
 Star == <<42>>
@@ -70,10 +72,8 @@ AttrHolds(d, env, s, i) ==
 
 IdAttr == <<105,100>>
 ClassAttr == <<99,108,97,115,115>>
-PlainAttrVal(d, i, nm) ==   \* value of the un-namespaced attribute nm, as a set (empty when absent)
-    {d.attrs[i][n].v : n \in {m \in 1..Len(d.attrs[i]) : NameKey(d, d.attrs[i][m].k) = nm}}
-IdHolds(d, s, i) == s.v \in PlainAttrVal(d, i, IdAttr)
-ClassHolds(d, s, i) == \E v \in PlainAttrVal(d, i, ClassAttr) : IsWord(v, s.v)
+IdHolds(d, s, i) == s.v \in AttrValSet(d, i, IdAttr)
+ClassHolds(d, s, i) == \E v \in AttrValSet(d, i, ClassAttr) : IsWord(v, s.v)
 
 \* ---- tree-structural -----------------------------------------------------
 Blocking(d, j) ==   \* a sibling that stops an element from being the lone root
@@ -149,6 +149,10 @@ MatchS(d, env, s, i) ==
       [] s.k = "last-of-type"  -> \A j \in NextElSibs(d, i) : ~SameType(d, i, j)
       [] s.k = "only-of-type"  -> \A j \in ElSibsAndSelf(d, i) : j # i => ~SameType(d, i, j)
       [] s.k = "nth"   -> NthHolds(d, env, s, i)
+      [] s.k = "lang"  -> LangHolds(d, s, i)               \* Lang.tla      [k, ranges |-> Seq(Str)]
+      [] s.k = "contains" -> ContainsHolds(d, s, i)        \* TextSem.tla   [k, vals |-> Seq(Str), own |-> BOOLEAN]
+      [] s.k \in {"in-range", "out-of-range"} -> RangeHolds(d, s, i)   \* Calendar.tla
+      [] OTHER -> StateHolds(d, s, i)                      \* HtmlState.tla: checked, default, ... dir, defined
 
 \* the relation every entry point is a view of
 Matches(d, env, lst, i) ==
